@@ -1,0 +1,74 @@
+//! Instrumentation for external runtime monitors (cargo feature `verif`).
+//!
+//! Nothing in here influences the behaviour of the library: there are
+//! thread-local hit counters and a thread-local, opt-in event sink. The
+//! library only ever writes to them; a monitor reads them between calls.
+
+use std::cell::RefCell;
+use std::collections::BTreeMap;
+
+
+#[derive(Clone, Debug, PartialEq, Eq)]
+pub enum Event {
+    /// A simplification move was applied (sizes are chamber counts, 0 = empty).
+    SimplifyMove { op: &'static str, before: usize, after: usize },
+    /// A minimum vertex cut was requested by `simplify::network_cut`.
+    VertexCut {
+        edges: Vec<(usize, usize)>,
+        source: usize,
+        sink: usize,
+        cut: Vec<usize>,
+        inside: Vec<usize>,
+    },
+}
+
+
+thread_local! {
+    static COUNTERS: RefCell<BTreeMap<&'static str, u64>> =
+        RefCell::new(BTreeMap::new());
+    static EVENTS: RefCell<Option<Vec<Event>>> = RefCell::new(None);
+}
+
+
+pub fn hit(name: &'static str) {
+    add(name, 1);
+}
+
+
+pub fn add(name: &'static str, n: u64) {
+    COUNTERS.with(|c| *c.borrow_mut().entry(name).or_insert(0) += n);
+}
+
+
+/// Returns all counters of the current thread and resets them.
+pub fn take() -> BTreeMap<&'static str, u64> {
+    COUNTERS.with(|c| std::mem::take(&mut *c.borrow_mut()))
+}
+
+
+/// Switches event recording for the current thread on or off.
+pub fn record_events(on: bool) {
+    EVENTS.with(|e| *e.borrow_mut() = if on { Some(vec![]) } else { None });
+}
+
+
+pub fn events_enabled() -> bool {
+    EVENTS.with(|e| e.borrow().is_some())
+}
+
+
+pub fn emit(event: Event) {
+    EVENTS.with(|e| {
+        if let Some(v) = e.borrow_mut().as_mut() {
+            v.push(event);
+        }
+    });
+}
+
+
+/// Returns the events recorded on the current thread and clears the sink.
+pub fn drain() -> Vec<Event> {
+    EVENTS.with(|e| {
+        e.borrow_mut().as_mut().map(std::mem::take).unwrap_or_default()
+    })
+}
